@@ -4,7 +4,10 @@ use std::path::{Path, PathBuf};
 use std::process::{Command, Stdio};
 
 pub fn driver_path(verif_dir: &Path, name: &str) -> PathBuf {
-    verif_dir.join("lean/.lake/build/bin").join(name)
+    match std::env::var("VERIF_LEAN_DIR") {
+        Ok(d) if !d.is_empty() => PathBuf::from(d).join(".lake/build/bin").join(name),
+        _ => verif_dir.join("lean/.lake/build/bin").join(name),
+    }
 }
 
 /// One output line per request line, in order.
